@@ -2,7 +2,6 @@ package rules
 
 import (
 	"fmt"
-	"go/token"
 	"go/types"
 	"sort"
 	"strings"
@@ -135,7 +134,7 @@ func runC01(c *Ctx) {
 	R.Require("C01.bound", 3)
 	R.Require("C01.csz", 2)
 	R.Require("C01.flush", 1)
-	R.Require("C01.fullread", 9)
+	R.Require("C01.fullread", 4)
 	R.Require("C01.partial", 1)
 	R.Require("C01.c0c3", 1)
 
@@ -228,7 +227,7 @@ func runC01(c *Ctx) {
 			for _, e := range phi.Edges {
 				if ex, isEx := e.(*ssa.Extract); isEx {
 					if cl, isCall := ex.Tuple.(*ssa.Call); isCall && cl.Call.StaticCallee() != nil {
-						names = append(names, cl.Call.StaticCallee().Name())
+						names = append(names, core.FnName(cl.Call.StaticCallee()))
 					}
 				}
 			}
@@ -239,7 +238,7 @@ func runC01(c *Ctx) {
 			// the c0 edge is chosen when the header variable is still nil (first iteration)
 			for i, e := range phi.Edges {
 				ex := e.(*ssa.Extract)
-				if ex.Tuple.(*ssa.Call).Call.StaticCallee().Name() != "generateC0Header" {
+				if core.FnName(ex.Tuple.(*ssa.Call).Call.StaticCallee()) != "generateC0Header" {
 					continue
 				}
 				for _, a := range core.GuardAtoms(phi.Block().Preds[i]) {
@@ -626,55 +625,55 @@ func checkMessageDetached(c *Ctx, rule string) {
 	}
 }
 
-// minIdiom recognises x := a; if x > b { x = b } (any comparison spelling) and returns the paths of a and b.
+// minIdiom recognises the smaller of two values in any spelling -- x := a; if x > b { x = b }, the builtin min(a, b), or
+// a helper returning one of its two arguments -- and returns the paths of a and b.  Every case of the operand must be
+// one of the two values, selected under a comparison of the two that makes it the smaller (or equal) one.
 func minIdiom(v ssa.Value) (string, string, bool) {
-	phi, ok := v.(*ssa.Phi)
-	if !ok || len(phi.Edges) != 2 {
+	if call, ok := core.StripConv(v).(*ssa.Call); ok {
+		if b, isB := call.Call.Value.(*ssa.Builtin); isB && b.Name() == "min" && len(call.Call.Args) == 2 {
+			return core.PathBound(call.Call.Args[0], nil, true), core.PathBound(call.Call.Args[1], nil, true), true
+		}
+	}
+	cases := core.ResultCases(v, nil, true)
+	var vals []string
+	for _, c := range cases {
+		dup := false
+		for _, x := range vals {
+			dup = dup || x == c.Val
+		}
+		if !dup {
+			vals = append(vals, c.Val)
+		}
+	}
+	if len(vals) != 2 {
 		return "", "", false
 	}
-	a, b := core.StripConv(phi.Edges[0]), core.StripConv(phi.Edges[1])
-	strip := func(x ssa.Value) ssa.Value {
-		for {
-			x = core.StripConv(x)
-			if cv, ok := x.(*ssa.Convert); ok {
-				x = cv.X
-				continue
+	pa, pb := vals[0], vals[1]
+	for _, c := range cases {
+		other := pa
+		if c.Val == pa {
+			other = pb
+		}
+		smaller := false
+		for _, a := range c.Atoms {
+			op := ""
+			if a.L == c.Val && a.R == other {
+				op = a.Op
+			} else if a.L == other && a.R == c.Val {
+				op = swapCmp[a.Op]
 			}
-			return x
+			if op == "<" || op == "<=" {
+				smaller = true
+			}
+		}
+		if !smaller {
+			return pa, pb, false
 		}
 	}
-	pa, pb := core.Path(strip(a)), core.Path(strip(b))
-	// the branch selecting between them compares the same two values the right way round
-	for i, pred := range phi.Block().Preds {
-		if len(pred.Instrs) == 0 {
-			continue
-		}
-		iff, ok := pred.Instrs[len(pred.Instrs)-1].(*ssa.If)
-		if !ok {
-			// the assigning block: its single predecessor holds the test
-			if len(pred.Preds) == 1 {
-				iff, _ = pred.Preds[0].Instrs[len(pred.Preds[0].Instrs)-1].(*ssa.If)
-			}
-		}
-		if iff == nil {
-			continue
-		}
-		bo, ok := iff.Cond.(*ssa.BinOp)
-		if !ok {
-			continue
-		}
-		l, r := core.Path(strip(bo.X)), core.Path(strip(bo.Y))
-		_ = i
-		if (l == pa && r == pb) || (l == pb && r == pa) {
-			// which value flows when the test "l > r" holds: must be the smaller one
-			switch bo.Op {
-			case token.GTR, token.GEQ, token.LSS, token.LEQ:
-				return pa, pb, true
-			}
-		}
-	}
-	return pa, pb, false
+	return pa, pb, true
 }
+
+var swapCmp = map[string]string{"==": "==", "!=": "!=", "<": ">", ">": "<", "<=": ">=", ">=": "<="}
 
 // ---------------------------------------------------------------------------------------------
 // header decoding (shared by C01.hdr and C02.*)
@@ -732,7 +731,7 @@ func headerDecodeChecksFiltered(c *Ctx, rule string, onlyC01 bool, filter func(n
 				"header.streamID": {Atom: "sid", Width: 32}, "message.messageHeader.Timestamp": {Atom: "ts", Width: 24}, "message.messageHeader.payloadLength": {Atom: "len", Width: 24},
 				// RTMP 5.3.1.2.4: a type-3 chunk that starts a new message right after a type-0 one uses that timestamp as its delta
 				"header.timestampDelta": {Atom: "ts", Width: 24},
-				"consumed": {Const: cst(11)}, "count": {Const: cst(1)}}},
+				"consumed":              {Const: cst(11)}, "count": {Const: cst(1)}}},
 		hdrCase{name: "type0,extended-timestamp", format: 0, fresh: true,
 			dom:  with(old(), map[string]Dom{"ext": {W: 31, Hi: -1}, "len": {W: 24, Hi: -1}, "type": {W: 8, Hi: -1}, "sid": {W: 32, Hi: -1}, "chunk.count": {W: 32, Hi: -1}}),
 			bind: map[string]int64{"chunk.count": 0},
